@@ -103,6 +103,16 @@ def zl(n):
     return "(%szchunks [%s])%%Z" % ("- " if n < 0 else "", "; ".join("%d" % c for c in chunks))
 
 
+PRIM_HELPERS = """
+Definition oz_eqb (a b : option Z) : bool :=
+  match a, b with Some x, Some y => Z.eqb x y | None, None => true | _, _ => false end.
+Definition os_eqb (a b : option (list Z)) : bool :=
+  match a, b with Some x, Some y => list_eqb Z.eqb x y | None, None => true | _, _ => false end.
+Definition fr_is (r : Z * Z) (n d : Z) : bool := Z.eqb (fst r) n && Z.eqb (snd r) d.
+Definition ofr_is (a b : option (Z * Z)) : bool :=
+  match a, b with Some x, Some y => fr_is x (fst y) (snd y) | None, None => true | _, _ => false end.
+"""
+
 ZCHUNKS = ("Definition zchunks (l : list Z) : Z := fold_right (fun c acc => (c + Z.shiftl acc 64)%Z) 0%Z l.\n"
            "Definition zrepeat {A} (x : A) (n : Z) : list A := List.repeat x (Z.to_nat n).\n")
 
@@ -170,29 +180,33 @@ Definition ok (c : term * list entry * option term) : bool :=
 
 
 def write_case_files(dirpath, tag, rows, shard):
+    """Rows are dealt round-robin to the files (row i -> file i mod n), so that the few expensive
+    cases of one stream do not end up in the same file.  Returns [(path, [global indexes])]."""
+    nfiles = max(1, (len(rows) + shard - 1) // shard)
     files = []
-    for k in range(0, len(rows), shard):
+    for k in range(nfiles):
+        idx = list(range(k, len(rows), nfiles))
         text = PREAMBLE
-        text += "Definition cases : list (term * list (op * list term * term) * option term) := [\n%s\n].\n" % ";\n".join(rows[k:k + shard])
+        text += "Definition cases : list (term * list (op * list term * term) * option term) := [\n%s\n].\n" % ";\n".join(rows[i] for i in idx)
         text += OK_DEF + "\nEval vm_compute in mismatches ok cases.\n"
-        p = os.path.join(dirpath, "cases_%s_%d.v" % (tag, k // shard))
+        p = os.path.join(dirpath, "cases_%s_%d.v" % (tag, k))
         with open(p, "w") as f:
             f.write(text)
-        files.append((p, k, len(rows[k:k + shard])))
+        files.append((p, idx))
     return files
 
 
 def run_files(files):
-    res = lib.run_case_files([p for p, _, _ in files])
+    res = lib.run_case_files([p for p, _ in files])
     bad, errs = [], []
-    for p, first, n in files:
+    for p, idx in files:
         rc, out = res[p]
         mm = lib.parse_nat_list(out) if rc == 0 else None
         if mm is None:
             errs.append({"file": p, "error": out[-800:]})
         else:
-            bad += [first + i for i in mm]
-    return bad, errs
+            bad += [idx[i] for i in mm]
+    return sorted(bad), errs
 
 
 # ----------------------------------------------------------------------------------------------
@@ -274,9 +288,7 @@ def impl_simplify(env, f, cov=None):
         else:
             r = s.simplify(f)
         return r, None, records
-    except RecursionError:
-        raise
-    except Exception as ex:  # noqa: the model predicts where the code raises
+    except Exception as ex:  # noqa: the model predicts where the code raises (RecursionError included)
         return None, type(ex).__name__, records
 
 
@@ -530,12 +542,13 @@ REPLAY_HEADER = ("from fractions import Fraction\nfrom pysmt.environment import 
                  "from pysmt.typing import *\nenv = Environment(); push_env(env); m = env.formula_manager\n")
 
 
+FIRST = {}
+
+
 def report(chk, env, f, r, exc, p, rnd, stream):
     mini = None
     try:
         mini = minimise(env, f, rnd)
-    except RecursionError:
-        raise
     except Exception:  # noqa
         mini = None
     if mini is not None:
@@ -543,6 +556,8 @@ def report(chk, env, f, r, exc, p, rnd, stream):
     else:
         s, rs, excs, ps = f, r, exc, p
     key = finding_key(s, ps)
+    FIRST.setdefault(key, {"minimal_formula": ser(s, 300), "observed": ("raises %s" % excs) if rs is None else ser(rs, 300),
+                           "what": ps.what[:300]})
     chk.violation({"kind": "input", "stream": stream, "what": ps.what,
                    "minimal_formula": ser(s),
                    "observed": ("raises %s" % excs) if rs is None else ser(rs),
@@ -875,7 +890,7 @@ def zopt(v):
 def prim_cases(rnd, tier):
     """list of (tag, Gallina bool expression expected to be true)"""
     out = []
-    eqo = "(match %s, %s with Some a, Some b => Z.eqb a b | None, None => true | _, _ => false end)"
+    eqo = "(oz_eqb (%s) %s)"     # no `match` on a closed computation here: coqc would evaluate it while elaborating
     small = list(range(-7, 8))
     bigs = [2 ** 64 + 3, -(2 ** 64) - 3, 10 ** 30, -(10 ** 30) + 7]
     for a, b in list(itertools.product(small, small)) + [(rnd.choice(bigs + small), rnd.choice(bigs + small)) for _ in range(60)]:
@@ -953,8 +968,7 @@ def prim_cases(rnd, tier):
             return None
     for v in small + bigs + [10 ** 4299, 10 ** 4300 - 1, 10 ** 4300, -(10 ** 4300), 10 ** 4300 + 1] + [rnd.randint(-10 ** 40, 10 ** 40) for _ in range(40)]:
         s = py_str(v)
-        out.append(("str(int)", "(match py_str_of_int %s with Some s => %s | None => %s end)"
-                    % (zl(v), "false" if s is None else "list_eqb Z.eqb s %s" % zlist(s), "true" if s is None else "false")))
+        out.append(("str(int)", "(os_eqb (py_str_of_int %s) %s)" % (zl(v), "None" if s is None else "(Some %s)" % zlist(s))))
     # math.floor(float(l) / r), math.ceil(float(l) / r)
     import math
 
@@ -985,14 +999,13 @@ def prim_cases(rnd, tier):
         return "(%s, %s)" % (zl(x.numerator), zl(x.denominator))
 
     def feq(e, x):
-        return "(let r := %s in Z.eqb (fst r) %s && Z.eqb (snd r) %s)" % (e, zl(x.numerator), zl(x.denominator))
+        return "(fr_is (%s) %s %s)" % (e, zl(x.numerator), zl(x.denominator))
     for a, b in itertools.product(fr, fr):
         out.append(("Fraction+", feq("fr_add %s %s" % (fz(a), fz(b)), a + b)))
         out.append(("Fraction-", feq("fr_sub %s %s" % (fz(a), fz(b)), a - b)))
         out.append(("Fraction*", feq("fr_mul %s %s" % (fz(a), fz(b)), a * b)))
-        out.append(("Fraction/", "(match fr_div %s %s with Some r => %s | None => %s end)"
-                    % (fz(a), fz(b), "false" if b == 0 else "Z.eqb (fst r) %s && Z.eqb (snd r) %s" % (zl((a / b).numerator), zl((a / b).denominator)),
-                       "true" if b == 0 else "false")))
+        out.append(("Fraction/", "(ofr_is (fr_div %s %s) %s)"
+                    % (fz(a), fz(b), "None" if b == 0 else "(Some %s)" % fz(a / b))))
         out.append(("Fraction cmp", "Bool.eqb (fr_ltb %s %s) %s && Bool.eqb (fr_leb %s %s) %s && Bool.eqb (fr_eqb %s %s) %s"
                     % (fz(a), fz(b), lib.coq_bool(a < b), fz(a), fz(b), lib.coq_bool(a <= b), fz(a), fz(b), lib.coq_bool(a == b))))
     for a in fr:
@@ -1001,9 +1014,7 @@ def prim_cases(rnd, tier):
                 v = a ** e
             except ZeroDivisionError:
                 v = None
-            out.append(("Fraction**", "(match fr_pow_int %s %s with Some r => %s | None => %s end)"
-                        % (fz(a), zl(e), "false" if v is None else "(let (n, d) := fr_norm (fst r) (snd r) in Z.eqb n %s && Z.eqb d %s) && Z.eqb (fst r) %s && Z.eqb (snd r) %s"
-                           % (zl(v.numerator), zl(v.denominator), zl(v.numerator), zl(v.denominator)), "true" if v is None else "false")))
+            out.append(("Fraction**", "(ofr_is (fr_pow_int %s %s) %s)" % (fz(a), zl(e), "None" if v is None else "(Some %s)" % fz(v))))
     return out
 
 
@@ -1011,15 +1022,17 @@ def run_prims(chk, rnd, tier):
     cases = prim_cases(rnd, tier)
     files = []
     shard = 500
-    for k in range(0, len(cases), shard):
+    nfiles = max(1, (len(cases) + shard - 1) // shard)
+    for k in range(nfiles):
+        idx = list(range(k, len(cases), nfiles))
         text = ("From Coq Require Import List ZArith Bool.\nFrom PySMT.core Require Import CaseUtil Syntax PyPrims.\n"
-                "Import ListNotations.\nOpen Scope bool_scope.\n" + ZCHUNKS)
-        text += "Definition cases : list bool := [\n%s\n].\n" % ";\n".join(e for _, e in cases[k:k + shard])
+                "Import ListNotations.\nOpen Scope bool_scope.\n" + ZCHUNKS + PRIM_HELPERS)
+        text += "Definition cases : list bool := [\n%s\n].\n" % ";\n".join(cases[i][1] for i in idx)
         text += "Eval vm_compute in mismatches (fun b : bool => b) cases.\n"
-        p = os.path.join(chk.dir, "cases_prims_%d.v" % (k // shard))
+        p = os.path.join(chk.dir, "cases_prims_%d.v" % k)
         with open(p, "w") as f:
             f.write(text)
-        files.append((p, k, len(cases[k:k + shard])))
+        files.append((p, idx))
     bad, errs = run_files(files)
     hist = {}
     for t, _ in cases:
@@ -1075,7 +1088,9 @@ class Stream(object):
         if len(self.chk.cov["samples"]) < 6 and nontrivial and self.rnd.random() < 0.02:
             self.chk.sample({"stream": stream, "formula": sf[:300], "simplified": ser(r, 300) if r is not None else "raises %s" % exc})
         p = semantic_problem(f, r, exc, self.rnd, self.ninterp, self.stats)
-        if p is not None:
+        if p is not None and len(self.chk.violations) >= 3 * self.chk.max_reports:
+            self.findings["(not minimised: report limit reached)"] = self.findings.get("(not minimised: report limit reached)", 0) + 1
+        elif p is not None:
             key = report(self.chk, env, f, r, exc, p, self.rnd, stream)
             self.findings[key] = self.findings.get(key, 0) + 1
 
@@ -1142,7 +1157,7 @@ def run_simplify(chk, rnd, tier):
     chk.cov["operators_not_generated"] = sorted(allops - set(st.ophist))
     chk.cov["simplifier_line_coverage"] = {"file": "pysmt/simplifier.py", "methods": len(ml), "executable_lines": total,
                                            "executed": hit, "not_executed": uncovered}
-    chk.cov["oracle"] = dict(st.stats, findings=st.findings)
+    chk.cov["oracle"] = dict(st.stats, findings=st.findings, first_example_per_finding=FIRST)
     examples = []
     for i in bad[:6]:
         stream, sf, env, f, r, exc = st.meta[i]
@@ -1169,23 +1184,27 @@ def run(tier):
         chk.note("proof part failed: %s" % lib.proof_failure_summary(chk))
     chk.note("proof part: %s" % ("ok" if ok else "FAILED"))
     lib.clean_cases(chk.dir)
-    prims_ok = run_prims(chk, rnd, tier)
+    only = os.environ.get("VERIF_C01_ONLY", "")      # development aid: "prims" or "simplify"
+    prims_ok = run_prims(chk, rnd, tier) if only != "simplify" else True
     chk.note("PyPrims vs CPython: %s" % ("ok" if prims_ok else "DISAGREEMENT"))
-    corr_ok, st = run_simplify(chk, rnd, tier)
-    if (not ok or not prims_ok or not corr_ok) and not chk.violations and not chk.known_hits:
-        what = []
-        if not ok:
-            what.append("proof: " + lib.proof_failure_summary(chk))
-        if not prims_ok:
-            what.append("correspondence PyPrims.v vs CPython")
-        if not corr_ok:
-            what.append("correspondence models/Simplifier.v vs pysmt.simplifier.Simplifier (build/C01/disagreements.json)")
-        chk.violation({"kind": "obligation", "theorem_or_correspondence": "; ".join(what)}, found_input=False)
-    elif not ok or not prims_ok or not corr_ok:
-        # a broken tie next to known findings must still fail the check
-        if not any(v for v in chk.violations):
-            what = "proof" if not ok else ("PyPrims correspondence" if not prims_ok else "Simplifier correspondence")
-            chk.violation({"kind": "obligation", "theorem_or_correspondence": what}, found_input=False)
+    corr_ok, st = run_simplify(chk, rnd, tier) if only != "prims" else (True, None)
+    if not ok or not prims_ok or not corr_ok:
+        # the proof or a tie is broken: if the SEARCH above found an input on which the property itself fails
+        # (an unlisted VIOLATION was printed) that is the report; otherwise name what no longer checks
+        if not any(found for _, found in chk.violations):
+            what = []
+            if not ok:
+                what.append("proof: " + lib.proof_failure_summary(chk))
+            if not prims_ok:
+                what.append("correspondence core/PyPrims.v vs CPython")
+            if not corr_ok:
+                what.append("correspondence models/Simplifier.v vs pysmt.simplifier.Simplifier")
+            ex = chk.cov.get("correspondence", {}).get("simplify", {}).get("examples", [])
+            chk.violation({"kind": "obligation", "theorem_or_correspondence": "; ".join(what),
+                           "disagreeing_inputs": ex,
+                           "searched": "every generated case was evaluated by the reference evaluator against the "
+                                       "implementation's result; none differs in type, symbols or value (other than known findings)"},
+                          found_input=False)
     return chk.finish(TRUSTED, ASSUMPTIONS, RULE)
 
 
